@@ -83,6 +83,14 @@ def prop_set(draw, kind_hint=None, values=None):
     return [name, v]
 
 
+def wrap_locked(draw, steps, rate):
+    """With probability 1/rate the write step just appended arrives while somebody else holds the
+    repository's index lock or ref lock (LOCKED step)."""
+    if rate and steps and steps[-1]["op"] in ("PUT", "DELETE", "PROPPATCH", "POST") and steps[-1].get("name", "") is not None and draw(st.integers(0, rate - 1)) == 0:
+        inner = steps.pop()
+        steps.append({"op": "LOCKED", "fe": inner["fe"], "afe": inner.get("afe", "wsgi"), "coll": inner["coll"], "inner": inner, "lock": draw(st.sampled_from(["index", "ref"]))})
+
+
 @st.composite
 def program(draw, weights=None, min_steps=8, max_steps=30, prefixes=PREFIXES, seed_bare=True, fancy_names=True, cond_rate=4, prop_values=None, restart_rate=None, focus=False, sparse_rate=0, locked_rate=0, retype=False):
     w = dict(DEFAULT_WEIGHTS)
@@ -213,7 +221,5 @@ def program(draw, weights=None, min_steps=8, max_steps=30, prefixes=PREFIXES, se
             steps.append({"op": "READ", "fe": fe, "afe": afe, "kind": kind, "path": draw(st.sampled_from(READ_PATHS)), "depth": draw(st.sampled_from([0, 1, 1, "infinity"])), "allprop": draw(st.booleans())})
         elif op == "RESTART":
             steps.append({"op": "RESTART"})
-        if locked_rate and steps[-1]["op"] in ("PUT", "DELETE", "PROPPATCH", "POST") and steps[-1].get("name", "") is not None and draw(st.integers(0, locked_rate - 1)) == 0:
-            inner = steps.pop()
-            steps.append({"op": "LOCKED", "fe": inner["fe"], "afe": inner.get("afe", "wsgi"), "coll": inner["coll"], "inner": inner, "lock": draw(st.sampled_from(["index", "ref"]))})
+        wrap_locked(draw, steps, locked_rate)
     return {"config": cfg, "steps": steps}
